@@ -67,7 +67,7 @@ Section C19.
      replicated set of the secondary equal to the primary's. *)
   Theorem C19_round : forall stamp last remote st,
     NoDup (ids (filter live st)) -> NoDup (ids (filter live remote)) -> all_global remote ->
-    consistent last (view st) remote -> hash_sound same_hash (view st) remote ->
+    consistent last (repl st) remote -> hash_sound same_hash (repl st) remote ->
     Permutation (content (repl (apply_round stamp (diff last (view st) remote) st)))
                 (content (repl remote)).
   Proof. exact (round_permutation keqb kltb is_empty same_hash applies keqb_spec kltb_irrefl kltb_trans kltb_total). Qed.
@@ -90,7 +90,7 @@ Section C19.
   Theorem C19_idempotent : forall last remote st,
     NoDup (ids (filter live st)) -> NoDup (ids (filter live remote)) -> all_global remote ->
     (forall kb, In kb (content (repl st)) <-> In kb (content (repl remote))) ->
-    hash_complete same_hash last (view st) remote ->
+    hash_complete same_hash last (repl st) remote ->
     issued applies (d_del (diff last (view st) remote)) = [] /\
     issued applies (d_ups (diff last (view st) remote)) = [].
   Proof. exact (idempotent keqb kltb is_empty same_hash applies keqb_spec kltb_irrefl kltb_trans kltb_total). Qed.
@@ -101,6 +101,67 @@ Section C19.
     acl_round keqb kltb is_empty same_hash applies stamp ri last remote st =
     round keqb kltb is_empty same_hash applies stamp ri last remote st.
   Proof. exact (acl_round_is_round keqb kltb is_empty same_hash applies keqb_spec kltb_irrefl kltb_trans kltb_total). Qed.
+  (* ---- across rounds.  [evolves_above ri R R']: R' is a later snapshot of the primary than R (taken at
+     index ri): whatever R' has not modified after ri is in R unchanged. ---- *)
+
+  (* What a round leaves is what the next round may assume: the premise "last is consistent with what the
+     secondary has applied" is PRODUCED by a round for the index it returns. *)
+  Theorem C19_round_reestablishes_consistent : forall stamp ri last remote st R',
+    NoDup (ids (filter live st)) -> NoDup (ids (filter live remote)) -> all_global remote ->
+    consistent last (repl st) remote -> hash_sound same_hash (repl st) remote ->
+    evolves_above ri remote R' ->
+    consistent ri (repl (apply_round stamp (diff last (view st) remote) st)) R'.
+  Proof. exact (round_reestablishes_consistent keqb kltb is_empty same_hash applies keqb_spec kltb_irrefl kltb_trans kltb_total). Qed.
+
+  (* Two rounds, the second with last := the returned index: converges to the later snapshot, with no
+     assumption about that index. *)
+  Theorem C19_two_rounds : forall stamp stamp' ri last remote st R',
+    NoDup (ids (filter live st)) -> NoDup (ids (filter live remote)) -> all_global remote ->
+    consistent last (repl st) remote -> hash_sound same_hash (repl st) remote ->
+    evolves_above ri remote R' -> NoDup (ids (filter live R')) -> all_global R' ->
+    hash_sound same_hash (repl (apply_round stamp (diff last (view st) remote) st)) R' ->
+    Permutation (content (repl (apply_round stamp' (diff ri (view (apply_round stamp (diff last (view st) remote) st)) R')
+                                  (apply_round stamp (diff last (view st) remote) st))))
+                (content (repl R')).
+  Proof. exact (two_rounds keqb kltb is_empty same_hash applies keqb_spec kltb_irrefl kltb_trans kltb_total). Qed.
+
+  (* The round after a round, on the unchanged primary, issues no write at all -- whatever the hash test
+     (zero hashes, no hash test): the returned index is at or above every modify index of the snapshot. *)
+  Theorem C19_second_round_silent : forall stamp ri last remote st,
+    NoDup (ids (filter live st)) -> NoDup (ids (filter live remote)) -> all_global remote ->
+    consistent last (repl st) remote -> hash_sound same_hash (repl st) remote ->
+    (forall y, In y remote -> (it_mod y <= ri)%N) ->
+    issued applies (d_del (diff ri (view (apply_round stamp (diff last (view st) remote) st)) remote)) = [] /\
+    issued applies (d_ups (diff ri (view (apply_round stamp (diff last (view st) remote) st)) remote)) = [].
+  Proof. exact (second_round_silent keqb kltb is_empty same_hash applies keqb_spec kltb_irrefl kltb_trans kltb_total). Qed.
+
+  (* ---- "once applied": the writes must be accepted by the state store.  [acl_round_store] is the round
+     with the unique-name rule of policies and roles ([name_of content]); its boolean is "no write refused". ---- *)
+  Variable name_of : N -> option N.
+
+  Theorem C19_store_round_accepted : forall stamp ri last remote st st',
+    acl_round_store keqb kltb is_empty same_hash applies name_of stamp ri last remote st = (st', true) ->
+    st' = acl_round keqb kltb is_empty same_hash applies stamp ri last remote st.
+  Proof. exact (store_round_accepted keqb kltb is_empty same_hash applies name_of). Qed.
+
+  Theorem C19_store_round_refused : forall stamp ri last remote st st',
+    acl_round_store keqb kltb is_empty same_hash applies name_of stamp ri last remote st = (st', false) ->
+    st' = delete_all keqb (issued applies (d_del (diff (effective_last ri last) (view st) remote))) st.
+  Proof. exact (store_round_refused keqb kltb is_empty same_hash applies name_of). Qed.
+
+  (* a condition readable off the two tables under which every write is accepted *)
+  Theorem C19_accepted_when_names_free : forall stamp (us st : list (@item K H)),
+    name_free name_of us st -> names_distinct name_of us ->
+    upsert_batch keqb name_of stamp us st = Some (upsert_all keqb stamp us st).
+  Proof. exact (accepted_when_names_free keqb keqb_spec name_of). Qed.
+
+  (* ---- two snapshots of the primary: harmless when the batch read agrees with the list on the upserts ---- *)
+  Theorem C19_two_snapshots_partial : forall stamp ri last remote batch st,
+    fetch_updated keqb (ids (d_ups (diff (effective_last ri last) (view st) remote))) (isort kltb batch) =
+    fetch_updated keqb (ids (d_ups (diff (effective_last ri last) (view st) remote))) (isort kltb remote) ->
+    acl_round_two keqb kltb is_empty same_hash applies stamp ri last remote batch st =
+    acl_round keqb kltb is_empty same_hash applies stamp ri last remote st.
+  Proof. exact (two_snapshots_agree keqb kltb is_empty same_hash applies). Qed.
 End C19.
 
 (* ---- the three instances: the order laws hold, so the theorems apply to the functions as run ---- *)
@@ -122,14 +183,14 @@ Proof. exact (conj cfg_eqb_spec (conj cfg_ltb_irrefl (conj cfg_ltb_trans cfg_ltb
    (index reset when the primary's index went backwards, diff, fetch by id, deletions, upserts) *)
 Theorem C19_round_acl : forall stamp ri last (remote st : list acl_item),
   NoDup (ids (filter acl_live st)) -> NoDup (ids (filter acl_live remote)) -> all_global remote ->
-  consistent (effective_last ri last) (view st) remote -> acl_hash_sound (view st) remote ->
+  consistent (effective_last ri last) (acl_repl st) remote -> acl_hash_sound (acl_repl st) remote ->
   Permutation (content (acl_repl (acl_round_m stamp ri last remote st))) (content (acl_repl remote)).
 Proof. exact acl_round_converges. Qed.
 
 Theorem C19_full_sync_acl : forall stamp ri last (remote st : list acl_item),
   (ri < last)%N -> (forall y, In y remote -> (0 < it_mod y)%N) ->
   NoDup (ids (filter acl_live st)) -> NoDup (ids (filter acl_live remote)) -> all_global remote ->
-  acl_hash_sound (view st) remote ->
+  acl_hash_sound (acl_repl st) remote ->
   Permutation (content (acl_repl (acl_round_m stamp ri last remote st))) (content (acl_repl remote)).
 Proof. exact acl_full_sync. Qed.
 
@@ -141,7 +202,7 @@ Proof. exact acl_local_untouched. Qed.
 
 Theorem C19_idempotent_acl : forall last (remote st : list acl_item),
   NoDup (ids (filter acl_live st)) -> NoDup (ids (filter acl_live remote)) -> all_global remote ->
-  hash_functional (view st) remote ->
+  hash_functional (acl_repl st) remote ->
   Permutation (content (acl_repl st)) (content (acl_repl remote)) ->
   acl_issued (d_del (acl_diff last (view st) remote)) = [] /\
   acl_issued (d_ups (acl_diff last (view st) remote)) = [].
@@ -150,13 +211,13 @@ Proof. exact acl_idempotent. Qed.
 (* config entries, the whole round of replicateConfig *)
 Theorem C19_round_config : forall stamp ri last (remote st : list cfg_item),
   NoDup (ids st) -> NoDup (ids remote) -> all_global remote ->
-  consistent (effective_last ri last) (view st) remote -> cfg_hash_sound (view st) remote ->
+  consistent (effective_last ri last) (cfg_repl st) remote -> cfg_hash_sound (cfg_repl st) remote ->
   Permutation (content (cfg_repl (cfg_round_m stamp ri last remote st))) (content (cfg_repl remote)).
 Proof. exact cfg_round_converges. Qed.
 
 Theorem C19_full_sync_config : forall stamp ri last (remote st : list cfg_item),
   (ri < last)%N -> (forall y, In y remote -> (0 < it_mod y)%N) ->
-  NoDup (ids st) -> NoDup (ids remote) -> all_global remote -> cfg_hash_sound (view st) remote ->
+  NoDup (ids st) -> NoDup (ids remote) -> all_global remote -> cfg_hash_sound (cfg_repl st) remote ->
   Permutation (content (cfg_repl (cfg_round_m stamp ri last remote st))) (content (cfg_repl remote)).
 Proof. exact cfg_full_sync. Qed.
 
@@ -170,7 +231,7 @@ Proof. exact cfg_local_untouched. Qed.
    holds for a zero hash (an entry stored before hashes existed) ... *)
 Theorem C19_idempotent_config_refuted :
   exists last (remote st : list cfg_item),
-    NoDup (ids st) /\ NoDup (ids remote) /\ all_global remote /\ hash_functional (view st) remote /\
+    NoDup (ids st) /\ NoDup (ids remote) /\ all_global remote /\ hash_functional (cfg_repl st) remote /\
     Permutation (content (cfg_repl st)) (content (cfg_repl remote)) /\
     cfg_issued (d_ups (cfg_diff last (view st) remote)) <> [].
 Proof. exact cfg_idempotent_refuted. Qed.
@@ -178,8 +239,8 @@ Proof. exact cfg_idempotent_refuted. Qed.
 (* ... and holds exactly when every pair carries usable hashes or is not newer than [last] *)
 Theorem C19_idempotent_config_partial : forall last (remote st : list cfg_item),
   NoDup (ids st) -> NoDup (ids remote) -> all_global remote ->
-  hash_functional (view st) remote ->
-  (forall x y, In x (view st) -> In y remote -> it_id x = it_id y ->
+  hash_functional (cfg_repl st) remote ->
+  (forall x y, In x (cfg_repl st) -> In y remote -> it_id x = it_id y ->
      (it_hash x <> 0%N /\ it_hash y <> 0%N) \/ (it_mod y <= last)%N) ->
   Permutation (content (cfg_repl st)) (content (cfg_repl remote)) ->
   cfg_issued (d_del (cfg_diff last (view st) remote)) = [] /\
@@ -189,7 +250,7 @@ Proof. exact cfg_idempotent_partial. Qed.
 (* federation states (third instance of the walk; outside the wording of the property) *)
 Theorem C19_round_fed : forall stamp ri last (remote st : list fed_item),
   NoDup (ids st) -> NoDup (ids remote) -> all_global remote ->
-  consistent (effective_last ri last) (view st) remote ->
+  consistent (effective_last ri last) (fed_repl st) remote ->
   Permutation (content (fed_repl (fed_round_m stamp ri last remote st))) (content (fed_repl remote)).
 Proof. exact fed_round_converges. Qed.
 
@@ -208,12 +269,119 @@ Theorem C19_idempotent_fed_partial : forall last (remote st : list fed_item),
   fed_issued (d_ups (fed_diff last (view st) remote)) = [].
 Proof. exact fed_idempotent_partial. Qed.
 
+(* ---- across rounds, the functions as run ---- *)
+Theorem C19_two_rounds_acl : forall stamp stamp' ri ri' last (remote R' st : list acl_item),
+  NoDup (ids (filter acl_live st)) -> NoDup (ids (filter acl_live remote)) -> all_global remote ->
+  consistent (effective_last ri last) (acl_repl st) remote -> acl_hash_sound (acl_repl st) remote ->
+  (ri <= ri')%N -> evolves_above ri remote R' ->
+  NoDup (ids (filter acl_live R')) -> all_global R' ->
+  acl_hash_sound (acl_repl (acl_round_m stamp ri last remote st)) R' ->
+  Permutation (content (acl_repl (acl_round_m stamp' ri' ri R' (acl_round_m stamp ri last remote st))))
+              (content (acl_repl R')).
+Proof. exact acl_two_rounds. Qed.
+
+Theorem C19_two_rounds_config : forall stamp stamp' ri ri' last (remote R' st : list cfg_item),
+  NoDup (ids st) -> NoDup (ids remote) -> all_global remote ->
+  consistent (effective_last ri last) (cfg_repl st) remote -> cfg_hash_sound (cfg_repl st) remote ->
+  (ri <= ri')%N -> evolves_above ri remote R' -> NoDup (ids R') -> all_global R' ->
+  cfg_hash_sound (cfg_repl (cfg_round_m stamp ri last remote st)) R' ->
+  Permutation (content (cfg_repl (cfg_round_m stamp' ri' ri R' (cfg_round_m stamp ri last remote st))))
+              (content (cfg_repl R')).
+Proof. exact cfg_two_rounds. Qed.
+
+Theorem C19_second_round_silent_acl : forall stamp ri last (remote st : list acl_item),
+  NoDup (ids (filter acl_live st)) -> NoDup (ids (filter acl_live remote)) -> all_global remote ->
+  consistent (effective_last ri last) (acl_repl st) remote -> acl_hash_sound (acl_repl st) remote ->
+  (forall y, In y remote -> (it_mod y <= ri)%N) ->
+  acl_issued (d_del (acl_diff ri (view (acl_round_m stamp ri last remote st)) remote)) = [] /\
+  acl_issued (d_ups (acl_diff ri (view (acl_round_m stamp ri last remote st)) remote)) = [].
+Proof. exact acl_second_round_silent. Qed.
+
+(* in particular the zero-hash rewrite of C19_idempotent_config_refuted does not recur in steady state *)
+Theorem C19_second_round_silent_config : forall stamp ri last (remote st : list cfg_item),
+  NoDup (ids st) -> NoDup (ids remote) -> all_global remote ->
+  consistent (effective_last ri last) (cfg_repl st) remote -> cfg_hash_sound (cfg_repl st) remote ->
+  (forall y, In y remote -> (it_mod y <= ri)%N) ->
+  cfg_issued (d_del (cfg_diff ri (view (cfg_round_m stamp ri last remote st)) remote)) = [] /\
+  cfg_issued (d_ups (cfg_diff ri (view (cfg_round_m stamp ri last remote st)) remote)) = [].
+Proof. exact cfg_second_round_silent. Qed.
+
+Theorem C19_second_round_silent_fed : forall stamp ri last (remote st : list fed_item),
+  NoDup (ids st) -> NoDup (ids remote) -> all_global remote ->
+  consistent (effective_last ri last) (fed_repl st) remote ->
+  (forall y, In y remote -> (it_mod y <= ri)%N) ->
+  fed_issued (d_del (fed_diff ri (view (fed_round_m stamp ri last remote st)) remote)) = [] /\
+  fed_issued (d_ups (fed_diff ri (view (fed_round_m stamp ri last remote st)) remote)) = [].
+Proof. exact fed_second_round_silent. Qed.
+
+(* ---- "once applied" is FALSE of the code for policies and roles: every hypothesis of C19_round_acl holds,
+   the idealised round converges, but the state store refuses the batch (two names swapped at the primary),
+   the table is left as it was, and every retry fails the same way (known finding C19-name-swap-stuck) ... *)
+Theorem C19_round_store_refuted :
+  NoDup (ids (filter acl_live swap_st)) /\ NoDup (ids (filter acl_live swap_remote)) /\ all_global swap_remote /\
+  consistent (effective_last 10 5) (acl_repl swap_st) swap_remote /\ acl_hash_sound (acl_repl swap_st) swap_remote /\
+  acl_round_store_m 0 10 5 swap_remote swap_st = (swap_st, false) /\
+  acl_round_store_m 0 10 0 swap_remote swap_st = (swap_st, false) /\
+  content (acl_repl (acl_round_m 0 10 5 swap_remote swap_st)) = content (acl_repl swap_remote) /\
+  content (acl_repl swap_st) <> content (acl_repl swap_remote).
+Proof. exact store_refuses_name_swap. Qed.
+
+(* ... and holds whenever no write is refused *)
+Theorem C19_round_store_partial : forall stamp ri last (remote st st' : list acl_item),
+  acl_round_store_m stamp ri last remote st = (st', true) ->
+  NoDup (ids (filter acl_live st)) -> NoDup (ids (filter acl_live remote)) -> all_global remote ->
+  consistent (effective_last ri last) (acl_repl st) remote -> acl_hash_sound (acl_repl st) remote ->
+  Permutation (content (acl_repl st')) (content (acl_repl remote)).
+Proof. intros stamp ri last remote st st' Hok. rewrite (acl_store_round_accepted _ _ _ _ _ _ Hok). apply acl_round_converges. Qed.
+
+(* ---- one snapshot per round is needed, and tokens do not check it: the batch read answered from an older
+   snapshot than the list makes the secondary keep the old content for good (known finding
+   C19-token-stale-batch) ---- *)
+Theorem C19_two_snapshots_refuted :
+  NoDup (ids (filter acl_live stale_st)) /\ NoDup (ids (filter acl_live stale_list)) /\ all_global stale_list /\
+  consistent (effective_last 12 6) (acl_repl stale_st) stale_list /\ acl_hash_sound (acl_repl stale_st) stale_list /\
+  (forall y, In y stale_list -> (it_mod y <= 12)%N) /\
+  let st1 := acl_round_two_m 0 12 6 stale_list stale_batch stale_st in
+  let st2 := acl_round_m 0 12 12 stale_list st1 in
+  content (acl_repl st2) = [([1]%N, 1%N)] /\ content (acl_repl stale_list) = [([1]%N, 2%N)].
+Proof. exact stale_batch_read_sticks. Qed.
+
+(* ---- more non-vacuity: non-empty instances of the hypotheses of C19_idempotent_acl, C19_round_config +
+   C19_local_untouched_config + C19_idempotent_config_partial, C19_full_sync_acl, C19_round_fed ---- *)
+Example C19_example_idempotent_acl :
+  NoDup (ids (filter acl_live eq_st)) /\ NoDup (ids (filter acl_live eq_remote)) /\ all_global eq_remote /\
+  hash_functional (acl_repl eq_st) eq_remote /\
+  Permutation (content (acl_repl eq_st)) (content (acl_repl eq_remote)) /\
+  acl_diff 0 (view eq_st) eq_remote = DiffRes [] [] 0 0.
+Proof. exact example_idempotent_acl. Qed.
+
+Example C19_example_config :
+  NoDup (ids cex_st) /\ NoDup (ids cex_remote) /\ all_global cex_remote /\
+  consistent (effective_last 9 5) (cfg_repl cex_st) cex_remote /\ cfg_hash_sound (cfg_repl cex_st) cex_remote /\
+  content (cfg_repl (cfg_round_m 0 9 5 cex_remote cex_st)) = [(([115;118;99]%N, [98]%N), 2%N); (k_svc_a, 3%N)] /\
+  filter cfg_untouchable (cfg_round_m 0 9 5 cex_remote cex_st) = [Item k_exp_z 2 6%N 9 false] /\
+  (forall x y, In x (cfg_repl (cfg_round_m 0 9 5 cex_remote cex_st)) -> In y cex_remote -> it_id x = it_id y ->
+     (it_hash x <> 0%N /\ it_hash y <> 0%N) \/ (it_mod y <= 9)%N) /\
+  cfg_issued (d_ups (cfg_diff 9 (view (cfg_round_m 0 9 5 cex_remote cex_st)) cex_remote)) = [].
+Proof. exact example_config. Qed.
+
+Example C19_example_full_sync :
+  (8 < 50)%N /\ (forall y, In y ex_remote -> (0 < it_mod y)%N) /\ acl_hash_sound (acl_repl ex_st) ex_remote /\
+  content (acl_repl (acl_round_m 9 8 50 ex_remote ex_st)) = [([97]%N, 10%N); ([98]%N, 21%N); ([99]%N, 30%N)].
+Proof. exact example_full_sync. Qed.
+
+Example C19_example_fed :
+  NoDup (ids fex_st) /\ NoDup (ids fex_remote) /\ all_global fex_remote /\
+  consistent (effective_last 8 4) (fed_repl fex_st) fex_remote /\
+  content (fed_repl (fed_round_m 0 8 4 fex_remote fex_st)) = [([100;99;49]%N, 3%N); ([100;99;50]%N, 2%N)].
+Proof. exact example_fed. Qed.
+
 (* Non-vacuity: a concrete secondary (an up-to-date object, an outdated one, one the primary deleted, a
    local-scoped token, an unmigrated empty-id object) and primary (one more new object) meet every
    hypothesis of C19_round_acl and C19_local_untouched_acl; the round yields exactly the primary's set. *)
 Example C19_hypotheses_satisfiable :
   NoDup (ids (filter acl_live ex_st)) /\ NoDup (ids (filter acl_live ex_remote)) /\ all_global ex_remote /\
-  consistent (effective_last 8 5) (view ex_st) ex_remote /\ acl_hash_sound (view ex_st) ex_remote /\
+  consistent (effective_last 8 5) (acl_repl ex_st) ex_remote /\ acl_hash_sound (acl_repl ex_st) ex_remote /\
   content (acl_repl (acl_round_m 9 8 5 ex_remote ex_st)) = [([97]%N, 10%N); ([98]%N, 21%N); ([99]%N, 30%N)] /\
   filter acl_untouchable (acl_round_m 9 8 5 ex_remote ex_st) = filter acl_untouchable ex_st.
 Proof. exact example_hypotheses. Qed.
@@ -248,3 +416,22 @@ Print Assumptions C19_idempotent_fed_refuted.
 Print Assumptions C19_idempotent_fed_partial.
 Print Assumptions C19_hypotheses_satisfiable.
 Print Assumptions C19_unique_ids_needed.
+Print Assumptions C19_round_reestablishes_consistent.
+Print Assumptions C19_two_rounds.
+Print Assumptions C19_second_round_silent.
+Print Assumptions C19_store_round_accepted.
+Print Assumptions C19_store_round_refused.
+Print Assumptions C19_accepted_when_names_free.
+Print Assumptions C19_two_snapshots_partial.
+Print Assumptions C19_two_rounds_acl.
+Print Assumptions C19_two_rounds_config.
+Print Assumptions C19_second_round_silent_acl.
+Print Assumptions C19_second_round_silent_config.
+Print Assumptions C19_second_round_silent_fed.
+Print Assumptions C19_round_store_refuted.
+Print Assumptions C19_round_store_partial.
+Print Assumptions C19_two_snapshots_refuted.
+Print Assumptions C19_example_idempotent_acl.
+Print Assumptions C19_example_config.
+Print Assumptions C19_example_full_sync.
+Print Assumptions C19_example_fed.
